@@ -1,4 +1,4 @@
-import json, os, subprocess, sys, time, shutil, glob, hashlib
+import json, os, re, subprocess, sys, time, shutil, glob, hashlib
 
 VERIF = os.path.dirname(os.path.dirname(os.path.abspath(__file__)))
 ENGINE = os.path.join(VERIF, "engine")
@@ -266,6 +266,91 @@ PROGFUZZ = {
     ),
 }
 
+def build_ws(ws, prop, batches):
+    """Builds the batch workspace. If some batch crates do not compile (possible only when the tree under test changed the
+    macro or the library), the programs with error diagnostics are returned as compile failures, the failing batches are
+    dropped from the runner and the rest is built and run."""
+    pr = sh(["cargo", "build", "-q"], cwd=ws, check=False)
+    if pr.returncode == 0:
+        return []
+    pr = sh(["cargo", "build", "-q", "--keep-going"], cwd=ws, check=False)
+    failed = sorted(set(re.findall(r"could not compile `\w+?_b(\d+)`", pr.stdout)), key=int)
+    if not failed:
+        sys.stderr.write(pr.stdout[-4000:])
+        raise Inconclusive("cargo build failed outside the generated program crates")
+    out = []
+    # split the diagnostics and attribute them to modules
+    diags = re.split(r"\n(?=error)", pr.stdout)
+    for b in failed:
+        lib = open(os.path.join(ws, "b" + b, "src", "lib.rs")).read().split("\n")
+        starts = [(i + 1, l.split()[2]) for i, l in enumerate(lib) if l.startswith("pub mod p")]
+        ends = [i + 1 for i, l in enumerate(lib) if l.startswith("pub fn entries()")]
+        seen = set()
+        for d in diags:
+            m = re.search(r"--> b%s/src/lib\.rs:(\d+)" % b, d)
+            if not m:
+                continue
+            line = int(m.group(1))
+            mod = None
+            for (st, name) in starts:
+                if st <= line:
+                    mod = (st, name)
+            if mod is None or mod[1] in seen:
+                continue
+            seen.add(mod[1])
+            nxt = min([st for (st, _) in starts if st > mod[0]] + ends)
+            code = re.match(r"error(\[E\d+\])?", d).group(1) or ""
+            out.append(dict(batch="b" + b, module=mod[1], code=code, diagnostic=d[:1500],
+                            module_src="\n".join(lib[mod[0] - 1: nxt - 1]),
+                            cargo_toml_in=open(os.path.join(ws, "b" + b, "Cargo.toml.in")).read()))
+    if not out:
+        sys.stderr.write(pr.stdout[-4000:])
+        raise Inconclusive("generated program crates failed to build without an attributable diagnostic")
+    # drop the failing batches from the runner crate
+    rd = os.path.join(ws, "runall")
+    for f in ("Cargo.toml", os.path.join("src", "main.rs")):
+        path = os.path.join(rd, f)
+        if not os.path.exists(path + ".full"):
+            shutil.copy(path, path + ".full")
+        txt = open(path + ".full").read().split("\n")
+        txt = [l for l in txt if not any(re.search(r"_b%s\b" % b, l) for b in failed)]
+        open(path, "w").write("\n".join(txt))
+    pr = sh(["cargo", "build", "-q", "-p", "run_" + prop.lower()], cwd=ws, check=False)
+    if pr.returncode != 0:
+        sys.stderr.write(pr.stdout[-4000:])
+        raise Inconclusive("runner does not build after dropping the non-compiling batches")
+    return out
+
+
+def compile_violation(prop, seed, tier, cf):
+    m = re.search(r"ascent(_run|_par|_run_par)?! \{.*", cf["module_src"], re.S)
+    return dict(property=prop, base="%s/%s" % (cf["batch"], cf["module"]), signature="compile:%s" % cf["code"],
+                failures=[dict(kind="compile_error", what="a generated well-formed program of this property's fragment does not compile on this tree, "
+                               "so the property's conclusion cannot hold for it", diagnostic=cf["diagnostic"])],
+                program_text=cf["module_src"][:6000], input_text="", seed=seed, tier=tier,
+                compile_replay=dict(module_src=cf["module_src"], cargo_toml_in=cf["cargo_toml_in"]))
+
+
+def replay_compile(prop, rd):
+    """replays a compile-failure violation: the saved module alone in a crate of its own"""
+    d = os.path.join(WORK, "replay-compile-" + prop)
+    os.makedirs(os.path.join(d, "src"), exist_ok=True)
+    cr = rd["compile_replay"]
+    toml = cr["cargo_toml_in"].replace("@REPO@", repo())
+    toml = re.sub(r'name = "\w+"', 'name = "rcompile_%s"' % prop.lower(), toml, count=1) + "\n[workspace]\n"
+    open(os.path.join(d, "Cargo.toml"), "w").write(toml)
+    open(os.path.join(d, "src", "lib.rs"), "w").write("#![allow(warnings)]\n" + cr["module_src"] + "\n")
+    if not os.path.exists(os.path.join(d, "Cargo.lock")):
+        shutil.copy(os.path.join(ENGINE, "Cargo.lock"), os.path.join(d, "Cargo.lock"))
+    render_engine()
+    pr = sh(["cargo", "build", "-q"], cwd=d, check=False)
+    if pr.returncode == 0:
+        return False, ""
+    if "error" not in pr.stdout or "src/lib.rs" not in pr.stdout:
+        sys.stderr.write(pr.stdout[-3000:])
+        raise Inconclusive("compile replay failed outside the program")
+    return True, pr.stdout[-3000:]
+
 
 def progfuzz(prop, tier, seed, replay=None):
     cfg = PROGFUZZ[prop]
@@ -277,6 +362,9 @@ def progfuzz(prop, tier, seed, replay=None):
     replay_data = None
     if replay:
         replay_data = json.load(open(replay))
+        if replay_data.get("compile_replay"):
+            failed, tail = replay_compile(prop, replay_data)
+            return dict(replay=True, failed=failed, detail=dict(replayed="compile", failed=failed, diagnostic=tail))
         out = os.path.join(WORK, "replay-" + prop)
         os.makedirs(out, exist_ok=True)
         sh([vgen, "--prop", prop, "--tier", tier, "--seed", str(seed), "--out", out, "--engine", ENGINE,
@@ -287,6 +375,8 @@ def progfuzz(prop, tier, seed, replay=None):
            + (["--programs", str(tcfg["programs"])] if "programs" in tcfg else []))
     ws = os.path.join(out, "ws")
     plan = json.load(open(os.path.join(out, "plan.json")))
+    for f in glob.glob(os.path.join(ws, "runall", "**", "*.full"), recursive=True):
+        os.remove(f)
     render_engine()
     for b in range(plan["batches"]):
         d = os.path.join(ws, "b%d" % b)
@@ -310,6 +400,7 @@ def progfuzz(prop, tier, seed, replay=None):
         return dict(replay=True, failed=False, detail=json.load(open(res_path)))
     res_path = os.path.join(out, "result.json")
     results = []
+    compile_failures = []
     for bc in cfg.get("build_configs", [dict()]):
         feats = bc.get("VERIF_ASCENT_FEATURES", "")
         for b in range(plan["batches"]):
@@ -322,7 +413,8 @@ def progfuzz(prop, tier, seed, replay=None):
             cur = os.path.join(d, "Cargo.toml")
             if not os.path.exists(cur) or open(cur).read() != txt:
                 open(cur, "w").write(txt)
-        sh(["cargo", "build", "-q"], cwd=ws)
+        compile_failures.extend(cf for cf in build_ws(ws, prop, plan["batches"])
+                                if (cf["batch"], cf["module"]) not in {(c["batch"], c["module"]) for c in compile_failures})
         for pc in cfg.get("proc_configs", [dict()]):
             if os.path.exists(res_path):
                 os.remove(res_path)
@@ -340,7 +432,7 @@ def progfuzz(prop, tier, seed, replay=None):
                 # the second build runs the same (program, input) cases: not counted again as distinct cases
                 r["nontrivial"] = 0
             results.append(r)
-    return dict(replay=False, results=results, plan=plan, wall=time.time() - t0, cfg=cfg, tcfg=tcfg)
+    return dict(replay=False, results=results, plan=plan, wall=time.time() - t0, cfg=cfg, tcfg=tcfg, compile_failures=compile_failures)
 
 
 def merge_progfuzz(prop, tier, seed, run):
@@ -362,6 +454,9 @@ def merge_progfuzz(prop, tier, seed, run):
         violations.extend(r["violations"])
         infra.extend(r["infra_errors"])
         cov.setdefault("known_replays", []).extend(r.get("known", []))
+    for cf in run.get("compile_failures", []):
+        violations.append(compile_violation(prop, seed, tier, cf))
+        cov["distribution"]["generated_programs_that_do_not_compile"] = cov["distribution"].get("generated_programs_that_do_not_compile", 0) + 1
     return cov, violations, infra
 
 
